@@ -203,7 +203,13 @@ func runMem(c Case, tr *Tracer) {
 				if rr.Intn(3) == 0 {
 					txt = textFrom(rr, 1+rr.Intn(140), "abc XYZ 0189.,") // fits one part in every coding
 				}
-				parts, _, err := protocol.EncodeSMPPContentAndSplit(context.Background(), txt, datacoding.SMPPDataCoding([]int{0, 1, 3, 8, 99}[rr.Intn(5)]), byte(rr.Intn(256)))
+				var parts [][]byte
+				var err error
+				if rr.Intn(3) == 0 {
+					parts, _, err = protocol.EncodeCMPPContentAndSplit(context.Background(), txt, datacoding.CMPPDataCoding([]int{0, 8, 9, 15}[rr.Intn(4)]), byte(rr.Intn(256)))
+				} else {
+					parts, _, err = protocol.EncodeSMPPContentAndSplit(context.Background(), txt, datacoding.SMPPDataCoding([]int{0, 1, 3, 8, 99}[rr.Intn(5)]), byte(rr.Intn(256)))
+				}
 				if err != nil {
 					continue
 				}
@@ -242,7 +248,7 @@ func runMem(c Case, tr *Tracer) {
 			var out, ref []byte
 			var err error
 			name := ""
-			switch rr.Intn(13) {
+			switch rr.Intn(16) {
 			case 0, 4, 5:
 				name = "gsm7encoding.Decode"
 				sep, e := gsm7encoding.Encode(txt)
@@ -289,6 +295,56 @@ func runMem(c Case, tr *Tracer) {
 				o := smgp.Options{}
 				o.Add(smgp.NewOption(smgp.Tag(1+rr.Intn(10)), randBytes(rr, rr.Intn(20))))
 				out, ref = o.Serialize(), o.Serialize()
+			case 9: // headers, single triplets, authenticators, validators
+				switch rr.Intn(7) {
+				case 0:
+					name = "cmpp.Header.Bytes"
+					h := cmpp.NewHeader(rr.Uint32(), cmpp.CommandSubmit, rr.Uint32())
+					out, ref = h.Bytes(), h.Bytes()
+				case 1:
+					name = "smgp.Header.Bytes"
+					h := smgp.NewHeader(rr.Uint32(), smgp.CommandSubmit, rr.Uint32())
+					out, ref = h.Bytes(), h.Bytes()
+				case 2:
+					name = "smpp.TLV.Bytes"
+					t := smpp.NewTLV(uint16(rr.Intn(65536)), randBytes(rr, rr.Intn(30)))
+					out, ref = t.Bytes(), t.Bytes()
+				case 3:
+					name = "smgp.Option.Bytes"
+					o := smgp.NewOption(smgp.Tag(rr.Intn(20)), randBytes(rr, rr.Intn(30)))
+					out, ref = o.Bytes(), o.Bytes()
+				case 4:
+					name = "cmpp.GenConnectAuth"
+					acc, sec := string(nulFree(rr, rr.Intn(7))), string(nulFree(rr, rr.Intn(20)))
+					out, ref = cmpp.GenConnectAuth(acc, sec, "0102030405"), cmpp.GenConnectAuth(acc, sec, "0102030405")
+				case 5:
+					name = "cmpp.GenConnectRespAuthISMG"
+					st, auth, sec := randBytes(rr, 1+rr.Intn(4)), string(randBytes(rr, 16)), string(nulFree(rr, rr.Intn(20)))
+					out, ref = cmpp.GenConnectRespAuthISMG(st, auth, sec), cmpp.GenConnectRespAuthISMG(st, auth, sec)
+				default:
+					name = "gsm7encoding.ValidateGSM7Buffer"
+					b := randBytes(rr, 1+rr.Intn(40))
+					out, ref = gsm7encoding.ValidateGSM7Buffer(b), gsm7encoding.ValidateGSM7Buffer(b)
+				}
+			case 10: // strings handed out by the content decoders and the header parser
+				txt2 := textFrom(rr, 1+rr.Intn(60), "abc XYZ 0189中文")
+				enc, e := datacoding.UCS2(txt2).Encode()
+				if e != nil {
+					continue
+				}
+				if rr.Intn(2) == 0 {
+					name = "DecodeSMPPCContent"
+					str, e2 := protocol.DecodeSMPPCContent(context.Background(), string(enc), 8)
+					if e2 != nil {
+						continue
+					}
+					out, ref = strBytes(str), []byte(txt2)
+				} else {
+					name = "ParseLongSmsContent"
+					udh := string([]byte{5, 0, 3, byte(rr.Intn(256)), 2, 1}) + string(enc)
+					_, _, _, rest, _ := protocol.ParseLongSmsContent(udh)
+					out, ref = strBytes(rest), enc
+				}
 			case 8: // strings are results too
 				name = "cmpp.MsgID2String"
 				id := rr.Uint64()
@@ -332,7 +388,7 @@ func runMem(c Case, tr *Tracer) {
 			lr.read = func() string { return string(lr.owned) }
 			add(lr)
 			emit(Ev{"ev": "Codec", "r": id, "fn": name, "same": string(out) == string(ref)}, "Codec")
-			if name != "cmpp.MsgID2String" { // (a string cannot be written to; it is only held and read again later)
+			if name != "cmpp.MsgID2String" && name != "DecodeSMPPCContent" && name != "ParseLongSmsContent" { // (a string cannot be written to; it is only held and read again later)
 				full := out[:cap(out)]
 				for i := range full {
 					full[i] = 0xDD
